@@ -4,13 +4,57 @@ __CPROVER_requires(__CPROVER_is_fresh(self, sizeof(*self)) && __CPROVER_is_fresh
 __CPROVER_requires(data->size <= STRMAX && __CPROVER_is_fresh(data->data, STRMAX + 1))
 /* the modulus of an IMPORTED key is arbitrary (any size, also zero or negative) */
 __CPROVER_requires(UF(bits)(V(self->m)) < ((unsigned long)1 << 32))
-__CPROVER_assigns(PARSE_ASSIGNS)
+__CPROVER_requires(g_ncpy == 0 && g_ncmp == 0)
+__CPROVER_assigns(PARSE_ASSIGNS, PRAB_MONITOR)
 /* C12: for every key and every signature text the check ends with a verdict -- the obligations are the
  * memory-safety checks and the asserted preconditions of the dependencies (mpz_mod modulus, mpz_export and
  * memcpy buffer sizes) inside the body */
 __CPROVER_ensures(__CPROVER_return_value == 0 || __CPROVER_return_value == 1)
+/* C10 (structure of PRab verification; buffer provenance recorded by the stubs): a signature is accepted only if
+ *  - both comparisons were made and both found equality, each over the full length: the digest w (first
+ *    digest-length octets of the exported value s^2 mod m) against h(...), and gamma (the octets after w and the
+ *    K0 salt octets, up to |m|/8) against the tail of the expanded hash g(w);
+ *  - h ran on exactly data || r: all data.length() octets of the data argument followed by the K0 salt octets
+ *    taken from the exported value behind w;
+ *  - g expanded exactly w to |m|/8 - digest length octets. */
+__CPROVER_ensures(__CPROVER_return_value ==> (g_ncmp == 2 && g_cmp_r[0] == 0 && g_cmp_r[1] == 0))
+__CPROVER_ensures(__CPROVER_return_value ==> (g_exp_word == MNSIZE(self) && g_ncpy == 5 &&
+   AT(g_cpy_s[0], g_exp_buf, 0) && g_cpy_n[0] == ghost_dlen &&
+   AT(g_cpy_s[1], g_exp_buf, ghost_dlen) && g_cpy_n[1] == TMCG_PRAB_K0 &&
+   AT(g_cpy_s[2], g_exp_buf, ghost_dlen + TMCG_PRAB_K0) && g_cpy_n[2] == MNSIZE(self) - ghost_dlen - TMCG_PRAB_K0))
+__CPROVER_ensures(__CPROVER_return_value ==> (AT(g_cmp_a[0], g_cpy_d[0], 0) && AT(g_cmp_b[0], g_h_out, 0) && g_cmp_n[0] == ghost_dlen))
+__CPROVER_ensures(__CPROVER_return_value ==> (AT(g_h_in, g_cpy_d[3], 0) && g_cpy_s[3].obj == __CPROVER_POINTER_OBJECT(data->data) && g_cpy_s[3].off == 0 && g_cpy_n[3] == data->size &&
+   AT(g_cpy_d[4], g_h_in, data->size) && AT(g_cpy_s[4], g_cpy_d[1], 0) && g_cpy_n[4] == TMCG_PRAB_K0 && g_h_size == data->size + TMCG_PRAB_K0))
+__CPROVER_ensures(__CPROVER_return_value ==> (AT(g_g_in, g_cpy_d[0], 0) && g_g_isize == ghost_dlen && g_g_osize == MNSIZE(self) - ghost_dlen))
+__CPROVER_ensures(__CPROVER_return_value ==> (AT(g_cmp_a[1], g_cpy_d[2], 0) && AT(g_cmp_b[1], g_g_out, TMCG_PRAB_K0) && g_cmp_n[1] == MNSIZE(self) - ghost_dlen - TMCG_PRAB_K0))
 //@ loop 1
 __CPROVER_assigns(i, __CPROVER_object_whole(r))
 __CPROVER_loop_invariant(i <= 20)
 __CPROVER_decreases(20 - i)
+//@ end
+
+//@ function TMCG_SecretKey__decrypt
+//@ contract
+__CPROVER_requires(__CPROVER_is_fresh(self, sizeof(*self)) && __CPROVER_is_fresh(value, TMCG_SAEP_S0))
+__CPROVER_requires(UF(bits)(V(self->m)) < ((unsigned long)1 << 32))
+__CPROVER_assigns(PARSE_ASSIGNS, PRAB_MONITOR, __CPROVER_object_whole(value))
+/* C12: memory safe for every ciphertext text and every key size (obligations inside the body) */
+__CPROVER_ensures(__CPROVER_return_value == 0 || __CPROVER_return_value == 1)
+/* C10 (structure of SAEP decryption): a plaintext is delivered only if the redundancy check was made and passed --
+ * the last comparison covered the S0 octets behind the message part of the unmasked block against S0 zero octets --
+ * and the S0 delivered octets are the message part of that same block */
+__CPROVER_ensures(__CPROVER_return_value ==> (g_last_cmp_r == 0 && g_last_cmp_n == TMCG_SAEP_S0 && g_last_cmp_a.off == TMCG_SAEP_S0 &&
+   AT(g_last_cmp_b, g_set_p, 0) && g_set_c == 0 && g_set_n == TMCG_SAEP_S0))
+__CPROVER_ensures(__CPROVER_return_value ==> (g_last_cpy_d.obj == __CPROVER_POINTER_OBJECT(value) && g_last_cpy_d.off == 0 && g_last_cpy_n == TMCG_SAEP_S0 &&
+   g_last_cpy_s.obj == g_last_cmp_a.obj && g_last_cpy_s.off == 0))
+/* the unmasking used g(r) with r the octets behind the masked block and the full lengths */
+__CPROVER_ensures(__CPROVER_return_value ==> (g_g_isize == MNSIZE(self) - 2 * TMCG_SAEP_S0 && g_g_osize == 2 * TMCG_SAEP_S0 && g_exp_word == MNSIZE(self)))
+//@ loop 1
+__CPROVER_assigns(k, PRAB_MONITOR, __CPROVER_object_whole(value), __CPROVER_object_whole(yy), __CPROVER_object_whole(r), __CPROVER_object_whole(Mt), __CPROVER_object_whole(g12), return_value)
+__CPROVER_loop_invariant(k <= 4)
+__CPROVER_decreases(4 - k)
+//@ loop 2
+__CPROVER_assigns(i, __CPROVER_object_whole(Mt))
+__CPROVER_loop_invariant(i <= rabin_s2)
+__CPROVER_decreases(rabin_s2 - i)
 //@ end
